@@ -116,6 +116,7 @@ MULTI['C11'] = dict(
            _v('iter', ITER_ALLOWED)],
     assumptions=[
         'L11a (Verus, unit EVAL): class7(relabel(cards, p)) == class7(cards) for every suit permutation p, and class7 is invariant under swapping two positions; with C01\'s contract the real evaluator is suit- and order-blind',
+        'L11a\' (Verus, unit EVAL, lemma_deal_relabel): one relabelled deal has the same strength for every player although the seven cards may reach the evaluator in another order -- CardPair::new re-canonicalises the two hole cards and the deck order of turn and river within a rank changes, so positions (0,1) and/or (5,6) are exchanged; this is the hypothesis strengths_follow of L11b for pi = identity',
         'L11b (Verus, unit SHOWDOWN): winner flags are determined by the strengths alone and follow the players under any reordering (lemma_flags_follow over C03\'s postcondition); lemma_some_winner + winner_len == number of flags: the k winners\' shares of 1/k are k in number',
         'L11d / counting step NOT mechanised: that suit relabelling and player reordering carry the set of legal deals bijectively (the deck order changes within a rank, so positions are permuted), hence equal tallies from the flag equalities, is a paper argument over C02\'s stepper contract',
         'the tallies themselves are computed by the caller (README / examples), not by the crate; 1/k shares are floating-point in the examples and their sum is not modelled',
@@ -123,6 +124,7 @@ MULTI['C11'] = dict(
     samples=[
         {'obligation': 'lemma_class7_relabel', 'clause': 'is_perm(p, q) && cards.len() == 7 ==> class7(relabel(cards, p)) == class7(cards)'},
         {'obligation': 'lemma_class7_swap', 'clause': 'class7(cards.update(i, cards[j]).update(j, cards[i])) == class7(cards)'},
+        {'obligation': 'lemma_deal_relabel', 'clause': 'is_perm(p, q) ==> class7(relabelled seven cards, hole cards and/or turn,river exchanged) == class7(h0, h1, f0, f1, f2, t, r)'},
         {'obligation': 'lemma_flags_follow', 'clause': 'is_showdown_of(sd1, ..) && is_showdown_of(sd2, ..) && strengths_follow(.., pi, inv) ==> forall i. sd2.players[i].win == sd1.players[pi(i)].win'},
     ],
     not_decided=['equality of whole tallies (the bijection between the two enumerations) is argued on paper, see assumptions'],
